@@ -317,6 +317,8 @@ def build_case(key, target, tries=6, require=None):
         idents.rename_locals(rec, rng)
         if (target == "uinrm" or (require and "UNDEFINED_INITIAL_NUMERIC_REMOVING" in require and not durative)) and rng.random() < 0.35:
             idents.inject_derived_name_trap(rec, rng)
+        if (target == "ncrm" or (require and "NEGATIVE_CONDITIONS_REMOVING" in require and not durative)) and rng.random() < 0.3:
+            idents.inject_negation_name_trap(rec, rng)
         if flags.get("join_trap") and not durative and rng.random() < flags["join_trap"]:
             idents.inject_join_trap(rec, rng)
         e = _env.fresh_env()
